@@ -44,5 +44,10 @@ CHECKS = {
         note="OS scheduling of worker processes is not controlled: equality is shown for the worker counts and batches generated. The adversarial id respects the language guarantee (unique among live objects).",
         technique="differential property testing with fault injection on object identity (Hypothesis-driven)",
     ),
+    "C10": dict(
+        text="Round-trip and differential testing of the representation layers over a population of 747 molecules (all corpus fragments + a vendored list of charged / aromatic / hetero-aromatic / hypervalent closed-shell molecules) and 356 mapped reactions, each also under generated rewritings: SMILES -> graph -> SMILES against RDKit's canonical form and an RDKit-built reference graph; explicit/implicit hydrogen round trip with constant total H; ITS -> GML -> ITS on (element, charge pair, order pair) with an independent regex reader for the GML text; the three documented routes to a GML rule must give equivalent rules (full ITS with core=True included).",
+        note="Stereo, isotopes and radicals are excluded as the statement says; hcount/aromatic are not carried by GML and are not compared there; the implicit direction is asserted only for graphs without explicit H nodes (documented).",
+        technique="round-trip + differential property testing (exhaustive over the molecule/reaction population, Hypothesis rewritings)",
+    ),
 }
 NOT_APPLICABLE = {}
